@@ -199,6 +199,241 @@ def gen_dec(rng):
     return L('dec', xb(body))
 
 
+# ---------------------------------------------------------------------------------------------------------------------
+# independent producer of VALID content streams (second sentence of the property).  Written from ISO 32000-1 7.2 / 7.3 /
+# 7.8.2 / 8.9.7, not from the parser: every operand kind in every spelling the syntax allows, comments, inline images.
+# Restrictions that come from the lopdf content grammar (reading notes, not C14): a comment stands only directly before an
+# operation (a comment between operands, or white space between a comment and the operation, ends the decoding silently).
+# ---------------------------------------------------------------------------------------------------------------------
+F32_INF_FROM = 2 ** 128 - 2 ** 103          # least decimal value that f32::from_str rounds to infinity
+CS_BYTES = [b' ', b'\n', b'\t', b'\r', b'\r\n', b'  ', b' \n']
+WS_BYTES = CS_BYTES + [b'\x00', b'\x0c', b' \x00 ', b'\x0c\n']
+
+
+class Producer:
+    def __init__(self, rng):
+        self.rng = rng
+
+    # ---- white space ----
+    def cs(self):
+        """content white space between the tokens of an operation"""
+        return self.rng.choice(CS_BYTES)
+
+    def ws(self):
+        """white space inside arrays / dictionaries / inline-image dictionaries: all six white-space bytes and comments"""
+        r = self.rng.random()
+        if r < 0.12:
+            return self.rng.choice([b' ', b'']) + self.comment() + self.rng.choice([b'', b' ', b'\t'])
+        return self.rng.choice(WS_BYTES)
+
+    def comment(self):
+        body = bytes(self.rng.choice(b'abc %()<>[]/\\#\t\x00\xff 0123') for _ in range(self.rng.randint(0, 8)))
+        return b'%' + body + self.rng.choice([b'\n', b'\r', b'\r\n'])
+
+    # ---- scalars ----
+    def integer(self):
+        r = self.rng
+        v = r.choice([0, 1, 7, 12, 255, 1000, 65535, 2 ** 31, 2 ** 63 - 1, r.randrange(10 ** 6), r.randrange(10 ** 18)])
+        sign = r.choice(['', '', '', '+', '-'])
+        if v == 2 ** 63 - 1 and r.random() < 0.3 and sign == '-':
+            v = 2 ** 63
+        return (sign + r.choice(['', '', '0', '000']) + str(v)).encode()
+
+    def real(self):
+        """sign? (digits . digits* | . digits+), finite in f32"""
+        r = self.rng
+        sign = r.choice(['', '', '+', '-'])
+        ip = r.choice(['0', '1', '12', '00', '007', '255', '1000000', '16777216', '16777217', '4294967296', '9223372036854775807',
+                       '9223372036854775808', '18446744073709551616', '123456789012345678901234567890', str(F32_INF_FROM - 1),
+                       str(r.randrange(10 ** r.randint(1, 30)))])
+        fp = r.choice(['', '0', '5', '25', '50', '000', '125', '1', '3333333333333333', '99999999', '0000001', '10',
+                       str(r.randrange(10 ** r.randint(1, 12))), '0' * r.randint(20, 60) + '1'])
+        k = r.random()
+        if k < 0.2:
+            return (sign + '.' + (fp or '5')).encode()
+        if k < 0.4:
+            return (sign + ip + '.').encode()
+        return (sign + ip + '.' + fp).encode()
+
+    def name(self):
+        r = self.rng
+        out = b'/'
+        for _ in range(r.choice([0, 1, 1, 2, 3, 5, 8])):
+            k = r.random()
+            if k < 0.6:
+                out += bytes([r.choice(b'ABCXYZabcxyz0123456789.-+_*!@$^&~|:;,?=\'"`')])
+            elif k < 0.9:
+                c = r.choice([0x20, 0x23, 0x25, 0x28, 0x29, 0x2f, 0x3c, 0x3e, 0x5b, 0x5d, 0x7b, 0x7d, 0x00, 0x09, 0x0a, 0x0d, 0x7f, 0x80,
+                              0xff, 0x41, 0x61, r.randrange(256)])
+                out += (r.choice(['#%02x', '#%02X']) % c).encode()
+            else:
+                out += bytes([r.choice([0x80, 0xa9, 0xff, 0x7f, 0x01, 0x1f])])     # regular bytes outside ASCII / controls
+        return out
+
+    def literal(self, depth=0):
+        r = self.rng
+        out = b''
+        for _ in range(r.choice([0, 1, 2, 3, 6])):
+            k = r.random()
+            if k < 0.4:
+                out += bytes(r.choice(b'abcXYZ 0189%/<>[]{}#\t\x00\xff\x80') for _ in range(r.randint(1, 5)))
+            elif k < 0.55:
+                out += r.choice([b'\\n', b'\\r', b'\\t', b'\\b', b'\\f', b'\\(', b'\\)', b'\\\\', b'\\x', b'\\%', b'\\ '])
+            elif k < 0.7:
+                o = r.choice([0, 7, 0o12, 0o101, 0o377, 0o50, 0o51, 0o134, r.randrange(256)])
+                out += r.choice([b'\\%o', b'\\%03o']) % o + r.choice([b'', b'', b'9', b'a'])
+            elif k < 0.78:
+                out += r.choice([b'\\\n', b'\\\r', b'\\\r\n'])                 # line continuation
+            elif k < 0.88:
+                out += r.choice([b'\n', b'\r', b'\r\n'])                          # raw end of line
+            elif depth < 3:
+                out += self.literal(depth + 1)                                      # balanced parentheses
+        return b'(' + out + b')'
+
+    def hexstr(self):
+        r = self.rng
+        out = b''
+        for _ in range(r.choice([0, 1, 2, 3, 4, 7, 12])):
+            out += bytes([r.choice(b'0123456789abcdefABCDEF')]) + r.choice([b'', b'', b'', b' ', b'\n', b'\x00', b'\t '])
+        return b'<' + r.choice([b'', b' ']) + out + b'>'
+
+    def obj(self, depth, in_container):
+        """one operand (or element); references only inside containers"""
+        r = self.rng
+        k = r.random()
+        if depth > 0 and k < 0.22:
+            return self.array(depth - 1) if r.random() < 0.55 else self.dictionary(depth - 1)
+        if in_container and k < 0.28:
+            return b'%d%s%d%sR' % (r.choice([1, 12, 4294967295, r.randrange(10 ** 5)]), self.ws() or b' ',
+                                   r.choice([0, 0, 1, 65535]), self.ws() or b' ')
+        return r.choice([self.integer, self.integer, self.real, self.real, self.name, self.literal, self.hexstr,
+                         lambda: b'true', lambda: b'false', lambda: b'null'])()
+
+    @staticmethod
+    def glue(a, b, sep):
+        """sep between tokens a and b; an empty separator only where a delimiter separates the tokens anyway"""
+        if sep == b'' and not (a[-1:] in b')>]' or b[:1] in b'(<[/'):
+            return b' '
+        if sep == b'' and a[-1:] == b'>' and b[:1] == b'>':
+            return b' '
+        return sep
+
+    def array(self, depth):
+        r = self.rng
+        items = [self.obj(depth, True) for _ in range(r.choice([0, 1, 2, 3, 5]))]
+        out = b'[' + r.choice([b'', b'', self.ws()])
+        prev = b'['
+        for it in items:
+            out += (self.glue(prev, it, r.choice([b'', self.ws(), self.ws()])) if prev != b'[' else b'') + it
+            prev = it
+        return out + r.choice([b'', b'', self.ws()] if prev[-1:] in b')>][' else [self.ws() or b' ', b' ']) * (1 if items else 0) + b']'
+
+    def dictionary(self, depth, inline=False):
+        r = self.rng
+        out = b'<<' + r.choice([b'', self.ws()])
+        prev = b'<<'
+        for _ in range(r.choice([0, 1, 2, 3])):
+            k = r.choice([b'/K', b'/Type', b'/A', b'/', self.name()])
+            v = self.obj(depth, True)
+            out += (self.glue(prev, k, r.choice([b'', self.ws()])) if prev != b'<<' else b'') + k
+            out += self.glue(k, v, r.choice([b'', self.ws(), self.ws()])) + v
+            prev = v
+        tail = r.choice([b'', self.ws()])
+        if prev != b'<<' and not prev[-1:] in b')>]' and tail == b'':
+            tail = b' '
+        return out + tail + b'>>'
+
+    # ---- operations ----
+    def operator(self, zero_operands):
+        return roperator(self.rng, zero_operands).encode()
+
+    def plain_operation(self):
+        r = self.rng
+        n = r.choice([0, 0, 1, 1, 2, 3, 6])
+        toks = [self.obj(2, False) for _ in range(n)]
+        toks.append(self.operator(n == 0))
+        out = toks[0]
+        for a, b in zip(toks, toks[1:]):
+            sep = self.cs() if r.random() < 0.8 else b''
+            if b is toks[-1] and sep == b'' and not a[-1:] in b')>]':
+                sep = b' '          # an operator needs a separator after a regular token (and after a name)
+            out += self.glue(a, b, sep) + b
+        return out
+
+    def image_operation(self):
+        r = self.rng
+        cs, nc = r.choice(IMG_CS)
+        bpc = r.choice([1, 1, 2, 4, 8, 8, 16])
+        w = r.choice([1, 2, 3, 5, 7, 8, 9, 13, 17])
+        h = r.choice([1, 1, 2, 3, 5])
+        n = h * ((w * nc * bpc + 7) // 8)
+        data = image_data(r, n)
+        num = lambda v: (r.choice(['', '', '+', '0', '00']) + str(v)).encode()
+        ent = [(r.choice([b'/W', b'/Width']), num(w)), (r.choice([b'/H', b'/Height']), num(h)),
+               (r.choice([b'/CS', b'/ColorSpace']), b'/' + cs.encode()), (r.choice([b'/BPC', b'/BitsPerComponent']), num(bpc))]
+        for _ in range(r.choice([0, 0, 1, 2])):
+            ent.append(r.choice([(b'/I', b'true'), (b'/Interpolate', b'false'), (b'/IM', b'false'), (b'/ImageMask', b'false'),
+                                 (b'/D', b'[1 0]'), (b'/Decode', b'[0.0 1.0]'), (b'/Intent', b'/Perceptual'),
+                                 (b'/DP', b'<</K -1>>'), (b'/Metadata', b'null'), (b'/X', self.obj(1, True))]))
+        r.shuffle(ent)
+        out = b'BI' + r.choice([b' ', b'\n', b'\r\n', b'', b'\t'])
+        prev = b'/'
+        for i, (k, v) in enumerate(ent):
+            out += (self.glue(prev, k, r.choice([b'', self.ws(), b' '])) if i else b'') + k
+            out += self.glue(k, v, r.choice([b'', self.ws(), b' ', b' '])) + v
+            prev = v
+        sep = r.choice([b' ', b'\n', b'\r\n', self.ws() or b' '])
+        out += sep + b'ID' + r.choice([b' ', b'\n', b'\r\n', b'\t', b'\r'])
+        if data[:1] == b'\n' and out.endswith(b'ID\r'):
+            out = out[:-1] + b' '      # ID CR + data LF would read as the single separator CR LF
+        return out + data + r.choice([b' ', b'\n', b'\r\n', b'  ']) + b'EI'
+
+    def content(self):
+        r = self.rng
+        parts = []
+        k = r.choice([1, 2, 3, 5, 8])
+        for i in range(k):
+            pre = b''.join(self.comment() for _ in range(r.choice([0, 0, 0, 1, 2])))
+            # a comment ends with its end-of-line; CR alone followed by the LF of the next token cannot occur (no token starts with LF)
+            op = self.image_operation() if r.random() < 0.3 else self.plain_operation()
+            parts.append(pre + op)
+        out = r.choice([b'', b'', b' ', b'\n', b'\r\n\t'])
+        for i, p in enumerate(parts):
+            out += p
+            if i + 1 < len(parts):
+                # after an operator: white space, or directly the comment of the next operation
+                nxt = parts[i + 1]
+                out += self.cs() if not nxt.startswith(b'%') or r.random() < 0.7 else b''
+        return out + r.choice([b'', b'', b' ', b'\n', b'\r\n']), k
+
+
+def gen_decv(rng):
+    body, k = Producer(rng).content()
+    return L('decv', xb(body), str(k))
+
+
+def real_texts(rng, tier):
+    T = F32_INF_FROM
+    fixed = [str(T - 1) + '.999999', str(T) + '.', str(T) + '.0', str(T + 1) + '.5', '00000' + str(T - 1) + '.0', '-' + str(T) + '.0',
+             '+' + str(T) + '.00', '-' + str(T - 1) + '.9', str(10 ** 38) + '.0', str(10 ** 39) + '.0', '9' * 40 + '.9', '9' * 38 + '.5',
+             '340282346638528859811704183484516925440.0', '340282346638528859811704183484516925439.', '340282350000000000000000000000000000000.0',
+             '340282356779733661637539395458142568447.5', '340282356779733661637539395458142568448.5', '3402823567797336616375393954581425684480.0',
+             '9223372036854775807.0', '9223372036854775808.', '9223371487098961920.0', '9223372586610589696.0', '9223372000000000000.0',
+             '9223371999999999999.9', '16777216.0', '16777217.0', '16777217.5', '0.1', '.1', '1.', '+.5', '-.0', '-0.', '+0.0', '00.10',
+             '0.' + '0' * 50 + '1', '0.' + '0' * 44 + '14', '0.' + '0' * 45 + '7', '0.' + '0' * 37 + '117549435', '1.17549435', '1.5',
+             '0.30000001192092896', '0.1000000000000000055511151231257827', '123456789.125', '8388608.5', '8388609.5', '4294967295.',
+             '4294967296.0', '1.0000001', '1.00000006', '0.99999997', '-123456.789', '65535.99999',
+             # not source reals
+             '1', '+1', '-', '.', '+.', '1.2.3', '--1.0', '+-1.0', '1..', '..1', '1.-2', '', '1.0+']
+    out = [t for t in fixed]
+    for _ in range(30 if tier == 'quick' else 3000):
+        ip = rng.choice(['', '0', str(rng.randrange(10 ** rng.randint(1, 41))), str(rng.randrange(2 ** 24 + 10)), str(T + rng.randrange(-3, 3)),
+                         str(2 ** rng.randint(0, 129)), str(2 ** 63 + rng.randrange(-2 ** 40, 2 ** 40)), '0' * rng.randint(1, 3) + str(rng.randrange(1000))])
+        fp = rng.choice(['', '0', str(rng.randrange(10 ** rng.randint(1, 20))), '0' * rng.randint(1, 50) + str(rng.randrange(1, 1000)), '5', '50'])
+        out.append(rng.choice(['', '', '+', '-']) + ip + '.' + fp)
+    return out
+
+
 def gen_cases(rng, tier):
     exe, log = vlib.build_harness('f32disp')
     reals = RealSource(exe)
@@ -229,6 +464,20 @@ def gen_cases(rng, tier):
         else:
             c = gen_dec(rng)
             cases.append((c, {'kind': 'dec-inline' if '4249' in c else 'dec', 'nontrivial': True}))
+    # second sentence of the property: valid content from the independent producer (every operand spelling, comments,
+    # inline images in every colour space / key style, EI and leading white space inside image data) is decoded, encoded and
+    # decoded again on the implementation; the producer's operation count is checked too
+    for k in range(n // 2):
+        c = gen_decv(rng)
+        cases.append((c, {'kind': 'decv-inline' if '4249' in c else 'decv', 'nontrivial': True}))
+    # open finding C14-real-overflow (see classify) and the boundary below it
+    for t in ['340282356779733661637539395458142568448.0 w', '-340282356779733661637539395458142568448. 0 0 m',
+              '[1 <</K 999999999999999999999999999999999999999999.5>>] TJ', 'q 340282356779733661637539395458142568447.999 w Q',
+              'BI /W 1 /H 1 /CS /Gray /BPC 8 /X 1' + '0' * 39 + '. ID x EI']:
+        cases.append((L('dec', xb(t.encode())), {'kind': 'dec-real-overflow', 'nontrivial': True}))
+    # the float assumptions of the second-sentence theorem (canon_spec) and the model's real syntax / overflow bound
+    for t in real_texts(rng, tier):
+        cases.append((L('real', xb(t.encode())), {'kind': 'real', 'nontrivial': True}))
     return cases
 
 
@@ -250,18 +499,73 @@ def first_sx(s, start):
     return len(s)
 
 
+def f32_value(bits):
+    """exact value of a finite f32 given by its bit pattern (None for infinities / NaN)"""
+    from fractions import Fraction
+    e = (bits >> 23) & 0xff
+    m = bits & 0x7fffff
+    if e == 0xff:
+        return None
+    v = Fraction(m, 1 << 23) * Fraction(2) ** -126 if e == 0 else (1 + Fraction(m, 1 << 23)) * Fraction(2) ** (e - 127)
+    return -v if bits >> 31 else v
+
+
+NUM_SX = re.compile(r'(\((?:r x[0-9a-f]*|i -?[0-9]+)\))')
+
+
+def same_values(m, i):
+    """two decoded operation lists are the same up to the spelling of reals and "an integral real below 2^63 may be an
+    integer": the model holds the source text of a real, Rust the f32, which it prints in Display form (shortest digits that
+    round-trip, e.g. 4294967300 for 2^32) and reads back as the integer of those digits"""
+    pm, pi = NUM_SX.split(m), NUM_SX.split(i)
+    if len(pm) != len(pi):
+        return False
+    for k, (x, y) in enumerate(zip(pm, pi)):
+        if k % 2 == 0:
+            if x != y:
+                return False
+            continue
+        if x == y:
+            continue
+        if not x.startswith('(r x'):
+            return False                        # integers of the model are exact
+        try:
+            bx = vlib.f32_bits_of_decimal(bytes.fromhex(x[4:-1]).decode('latin-1'))
+        except ValueError:
+            return False
+        if bx is None:
+            return False
+        if y.startswith('(r x'):
+            by = vlib.f32_bits_of_decimal(bytes.fromhex(y[4:-1]).decode('latin-1'))
+        else:
+            n = int(y[3:-1])
+            v = f32_value(bx)
+            if v is None or v.denominator != 1 or abs(v) >= 2 ** 63:
+                return False                    # only an integral real below 2^63 may come back as an integer
+            by = vlib.f32_bits_of_decimal(str(n))
+        if by is None or (bx & 0x7fffffff or by & 0x7fffffff) and bx != by:
+            return False                        # (+0 and -0 are the same value)
+    return True
+
+
 def compare(model, impl):
     """equal up to real canonicalisation.  A real parsed from a non-canonical spelling (".25", "5.", "+3.0") is kept as
-    its source text by the model but re-printed by Rust in Display form, so for (res2 ...) results whose first decode
-    agrees numerically but not textually only the first decode is compared (DESIGN 3: decimal->binary rounding of
-    non-shortest spellings is outside the model)."""
+    its source text by the model but held as an f32 and re-printed in Display form by Rust.  For (res2 <dec1> xREENC <dec2>)
+    results whose first decodes agree numerically but not textually, the re-encoded bytes differ legitimately (the model
+    writes the source spelling, Rust the Display text: canon_op in Proofs/DecodeRtProofs.v); the second decodes are then
+    compared up to the spelling of reals and "an integral real below 2^63 may be an integer" (intnorm_op)."""
     if vlib.compare_canon_reals(model, impl):
         return True
     if model.startswith('(res2 ') and impl.startswith('(res2 '):
         em, ei = first_sx(model, 6), first_sx(impl, 6)
         dm, di = model[6:em], impl[6:ei]
-        if dm != di and vlib.canon_reals(dm) == vlib.canon_reals(di):
-            return True
+        if dm == di or vlib.canon_reals(dm) != vlib.canon_reals(di):
+            return False
+        rm, ri = model[em:].strip(), impl[ei:].strip()
+        if not rm.startswith('x') or not ri.startswith('x'):
+            return rm == ri
+        rm, ri = rm[first_sx(rm, 0):].strip(), ri[first_sx(ri, 0):].strip()
+        return same_values(rm, ri)
     return False
 
 
@@ -308,8 +612,19 @@ def split_top(t):
     return out
 
 
+NUMERAL = re.compile(rb'(?<![0-9.])([0-9]+)\.')
+
+
 def known_class_of(line):
-    """mirror of known_class in coq/Proofs/ContentProofs.v, on the input: returns a finding id or None"""
+    """mirror of known_class in coq/Proofs/ContentProofs.v (enc cases) and of overflow_op in coq/Proofs/DecodeRtProofs.v (dec
+    cases), on the input: returns a finding id or None"""
+    m = re.match(r'\((?:dec|decv) x([0-9a-f]*)', line)
+    if m:
+        # C14-real-overflow: a real whose integer digits denote at least 2^128 - 2^103 (f32::from_str returns infinity)
+        body = bytes.fromhex(m.group(1))
+        if any(int(t) >= F32_INF_FROM for t in NUMERAL.findall(body)):
+            return 'C14-real-overflow'
+        return None
     if not line.startswith('(enc (ops'):
         return None
     body = line[len('(enc '):]
